@@ -55,6 +55,9 @@ def gen_range(rng, in_quantifier=None):
 
 def gen_case(rng, prop):
     c = gen_case0(rng, prop)
+    if 'start' in c and 'end' in c and c['kind'] != 'bh' and c['start'] < c['end'] and c['end'] % 86400 > c['start'] % 86400 \
+            and rng.random() < 0.1:
+        c['start_us'] = rng.choice([1, 250000, 999999, rng.randrange(1, 10 ** 6)])
     if 'start' in c and 'end' in c and rng.random() < 0.3:
         # other schedules / clocks over the SAME range were built earlier in this process (a schedule is specified as a
         # function of its own arguments): siblings differing in kind, weekday or the pre/post flags
@@ -101,20 +104,35 @@ def gen_case0(rng, prop):
     return dict(kind='bh', start=s)
 
 
+def xsecs(t):
+    """seconds of a timestamp; a value that is not on a whole second is returned as a float (and so never equals a model instant)"""
+    v = t.value
+    return int(v // 10 ** 9) if v % 10 ** 9 == 0 else v / 1e9
+
+
+def start_of(case):
+    """the range start, optionally carrying microseconds (the schedule is that of the whole second)"""
+    t = ts(case['start'])
+    if case.get('start_us'):
+        import pandas as pd
+        t = t + pd.Timedelta(microseconds=case['start_us'])
+    return t
+
+
 def execute(case):
     k = case['kind']
     for q in case.get('prior', []):
         execute(q)
     try:
         if k == 'sim':
-            eng = DailyBusinessDaySimulationEngine(ts(case['start']), ts(case['end']), pre_market=case['pre'], post_market=case['post'])
-            return dict(out='ok', events=[[secs(ev.ts), ev.event_type] for ev in eng])
+            eng = DailyBusinessDaySimulationEngine(start_of(case), ts(case['end']), pre_market=case['pre'], post_market=case['post'])
+            return dict(out='ok', events=[[xsecs(ev.ts), ev.event_type] for ev in eng])
         if k == 'weekly':
-            r = WeeklyRebalance(ts(case['start']), ts(case['end']), case['wd'], pre_market=case['pre'])
+            r = WeeklyRebalance(start_of(case), ts(case['end']), case['wd'], pre_market=case['pre'])
         elif k == 'daily':
-            r = DailyRebalance(ts(case['start']), ts(case['end']), pre_market=case['pre'])
+            r = DailyRebalance(start_of(case), ts(case['end']), pre_market=case['pre'])
         elif k == 'eom':
-            r = EndOfMonthRebalance(ts(case['start']), ts(case['end']), pre_market=case['pre'])
+            r = EndOfMonthRebalance(start_of(case), ts(case['end']), pre_market=case['pre'])
         elif k == 'bh':
             r = BuyAndHoldRebalance(ts(case['start']))
         elif k == 'isopen':
@@ -129,10 +147,10 @@ def execute(case):
                 bme = dd.weekday() <= 4 and date_of(nb).month != dd.month
                 rows.append([dd.year, dd.month, dd.day, dd.weekday(), bme])
             return dict(out='ok', dates=rows)
-        res = dict(out='ok', times=[secs(t) for t in r.rebalances])
+        res = dict(out='ok', times=[xsecs(t) for t in r.rebalances])
         if k in ('weekly', 'daily', 'eom') and case['start'] <= case['end']:
-            eng = DailyBusinessDaySimulationEngine(ts(case['start']), ts(case['end']), pre_market=False, post_market=False)
-            res['clock'] = [secs(ev.ts) for ev in eng]
+            eng = DailyBusinessDaySimulationEngine(start_of(case), ts(case['end']), pre_market=False, post_market=False)
+            res['clock'] = [xsecs(ev.ts) for ev in eng]
         return res
     except ValueError:
         return dict(out='ValueError')
